@@ -112,6 +112,23 @@ def task_ops(ctx, cfg, variant):
       b = ops(gr, x * gr.mask, y * gr.mask)
       return a, b
     prove_close(ctx, 'spectral_operators', both, [x, y], sp, config=c)
+    if cfg.get('spacing', 'gauss') != 'equiangular_with_poles':
+      # the library's own jit-compiled wind helpers (the grid is a STATIC argument: both implementations go through the same compiled-function
+      # cache in one process, reference first for () and fast first for the batched case)
+      def winds(zu, zv, vor, div, fast_first=bool(lead)):
+        def run_fast():
+          return (jax.tree_util.tree_map(from_fast, sh.uv_nodal_to_vor_div_modal(gf, pad_nodal(zu), pad_nodal(zv))),
+                  jax.tree_util.tree_map(crop_nodal, sh.vor_div_to_uv_nodal(gf, to_fast(vor * gr.mask), to_fast(div * gr.mask))))
+
+        def run_ref():
+          return (sh.uv_nodal_to_vor_div_modal(gr, zu, zv), sh.vor_div_to_uv_nodal(gr, vor * gr.mask, div * gr.mask))
+        if fast_first:
+          a = run_fast(); b = run_ref()
+        else:
+          b = run_ref(); a = run_fast()
+        return a, b
+      zu = PolyArr.variables(sp, 'zu', tuple(lead) + gr.nodal_shape); zv = PolyArr.variables(sp, 'zv', tuple(lead) + gr.nodal_shape)
+      prove_close(ctx, 'jitted_wind_helpers', winds, [zu, zv, x, y], sp, config=c)
   # padding outputs of the fast class are exact zeros outside its mask after analysis
   sp2 = Space(bits=14)
   zf = PolyArr.variables(sp2, 'z', gf.nodal_shape)
